@@ -195,6 +195,13 @@ def render_one(cls, src, b):
     kw = {}
     if b['v']['k'] != 'missing':
         kw['x'] = pyvalue(b['v'])
+    if b['v']['k'] == 'text' and b['v']['tnt']:
+        # history is part of the case: the same text passed through the same tag as a trusted string first (equal and
+        # equally hashed, so anything remembered per text must not hand its trusted result to the untrusted twin)
+        try:
+            t(x=str(kw['x']))
+        except Exception:  # noqa
+            pass
     try:
         r = t(**kw)
     except KeyError:
